@@ -307,7 +307,7 @@ def obligations(tier: str):
         for pos, val in (("0", "3"), ("1", "-4"), ("2", "2")):
             obls.append({"id": "parse.form15.fix%s.d%d" % (pos, dg), "func": "h_parse", "params": {"digits": dg, "form": 15, "fixed": {pos: val}}, "timeout": t})
     else:
-        obls.append({"id": "parse.form15.d2", "func": "h_parse", "params": {"digits": 2, "form": 15}, "timeout": 1500})
+        obls.append({"id": "parse.form15.d2", "func": "h_parse", "params": {"digits": 2, "form": 15}, "timeout": 1200})
     return obls
 
 
@@ -445,7 +445,7 @@ def b2_guards():
         return {"status": "unknown", "notes": ["IndexSelector.__init__ not translatable: %s" % e]}
     raises = k.outcome_guard(outs, "raise", lambda nm: nm == "JSONPathIndexError")
     other = k.outcome_guard(outs, "raise", lambda nm: nm != "JSONPathIndexError")
-    r, m, dt = k.prove(z3.And(raises == z3.Or(i < lo, i > hi), z3.Not(other) if other is not False else True))
+    r, m, dt = k.prove(z3.And(raises == z3.Or(i < lo, i > hi), z3.Not(other) if other is not False else True), assumptions=[lo <= hi])
     tot += dt
     queries.append({"claim": "IndexSelector(index=i) raises JSONPathIndexError <=> i<lo or i>hi (all ints)", "result": r, "s": round(dt, 4)})
     if r != "unsat":
@@ -459,7 +459,7 @@ def b2_guards():
             return {"status": "unknown", "notes": ["_check_range not translatable: %s" % e]}
         raises = k.outcome_guard(outs, "raise", lambda nm: nm == "JSONPathIndexError")
         exp = z3.Or([z3.Or(v < lo, v > hi) for v in vals if v is not None] + [z3.BoolVal(False)])
-        r, m, dt = k.prove(raises == exp if raises is not False else z3.Not(exp))
+        r, m, dt = k.prove(raises == exp if raises is not False else z3.Not(exp), assumptions=[lo <= hi])
         tot += dt
         queries.append({"claim": "_check_range present=%s raises <=> some present component outside [lo,hi]" % ((pa, pb, pc),), "result": r, "s": round(dt, 4)})
         if r != "unsat":
